@@ -2,6 +2,7 @@
 import re
 from vlib.gen import Unit, Fn, Adt, Raw
 from units.u_gotypedoc import text_any
+from units.u_dcefx import UNIT as DCEFX
 
 GP = "crates/compiler/src/pprint/go_pprint.rs"
 GA = "crates/compiler/src/go/goast.rs"
@@ -24,22 +25,43 @@ pub open spec fn go_unop_text(op: GoUnaryOp) -> Seq<char> {
 }
 '''
 
+def arm_doc(name, start, end, params, contract, obligation):
+    return Fn(file=GP, name="to_doc", container="Expr", drop_self_impl=True, rename=name, ret="r",
+              cut_from=re.compile(start), cut_inside=True, cut_before=end, cut_tail="",
+              sig=f"fn {name}({params}, goenv: &GlobalGoEnv) -> Doc",
+              pre_rewrites=[(re.compile(r",\s*\}\s*$"), "\n}", 1), (re.compile(r"(?s)\A.*\Z"), texts, 1), (re.compile(r"RcDoc::space\(\)"), "Doc::space()", "*")],
+              contract=contract, obligation=obligation,
+              ghost=[("@entry", "", 'proof { reveal_strlit("["); reveal_strlit("]"); }')])
+
+
 UNIT = Unit(
     name="U-GOOPS",
     properties=["C10", "C09", "C02"],
     rules=["attrs"],
-    describe="pprint::go_pprint::{GoUnaryOp::doc, GoBinaryOp::doc} (whole): every operator of the Go AST is printed as Go's own spelling of THAT operator (`<=` for LessEq, `&&` for And ..) — "
-             "U-CEXPR maps a goml operator to the Go operator of the same name, this is the last step to the text",
+    describe="pprint::go_pprint::{GoUnaryOp::doc, GoBinaryOp::doc} (whole) and the UnaryOp / BinaryOp / Index arms of Expr::to_doc (fragments): every operator of the Go AST is printed as Go's own spelling of THAT operator (`<=` for LessEq, `&&` for And ..) — "
+             "U-CEXPR maps a goml operator to the Go operator of the same name, this is the last step to the text; a binary operation is printed left operand, operator, right operand, an index as array[index]",
     trusted=["RcDoc is the text shim Doc (U-GOTYPEDOC); the table of Go's operator spellings (go_binop_text / go_unop_text) is written from the Go specification"],
     items=[
         Adt(file="crates/compiler/src/go/goty.rs", kw="enum", name="GoType", rules=["attrs"]),
         Raw(path="contracts/gotypedoc.shim.rs"),
         Adt(file=GA, kw="enum", name="GoUnaryOp", rules=["attrs"]),
         Adt(file=GA, kw="enum", name="GoBinaryOp", rules=["attrs"]),
+        Adt(file=GA, kw="struct", name="Block", rules=["attrs", ("strip", "goty::")]),
+        Adt(file=GA, kw="enum", name="Expr", rules=["attrs", ("strip", "goty::")]),
+        Adt(file=GA, kw="enum", name="Stmt", rules=["attrs", ("strip", "goty::")]),
         Raw(text=SPEC),
         Fn(file=GP, name="doc", container="GoUnaryOp", ret="r", pre_rewrites=[(re.compile(r"(?s)\A.*\Z"), texts, 1)], rewrites=[SIG],
            obligation="a unary operator is printed as Go spells it", contract="ensures r.txt() == go_unop_text(*self),"),
         Fn(file=GP, name="doc", container="GoBinaryOp", ret="r", pre_rewrites=[(re.compile(r"(?s)\A.*\Z"), texts, 1)], rewrites=[SIG],
            obligation="a binary operator is printed as Go spells it", contract="ensures r.txt() == go_binop_text(*self),"),
+        Raw(text="#[verifier::external_body] pub struct GlobalGoEnv { _p: u64 }\n"
+                 "pub uninterp spec fn expr_text(e: Expr) -> Seq<char>;      // the text an expression is printed as (Expr::to_doc, recursively)\n"
+                 "impl Expr { #[verifier::external_body] pub fn to_doc(&self, goenv: &GlobalGoEnv) -> (r: Doc) ensures r.txt() == expr_text(*self) { unimplemented!() } }\n"),
+        arm_doc("unop_doc", r"Expr::UnaryOp \{ op, expr, ty: _ \} => ", "Expr::BinaryOp {", "op: &GoUnaryOp, expr: &Box<Expr>",
+                "ensures r.txt() == go_unop_text(*op) + expr_text(**expr),", "a unary operation is printed operator first, then the operand"),
+        arm_doc("binop_doc", r"Expr::BinaryOp \{\s*op,\s*lhs,\s*rhs,\s*ty: _,\s*\} => ", "Expr::FieldAccess { obj, field, ty: _ } =>", "op: &GoBinaryOp, lhs: &Box<Expr>, rhs: &Box<Expr>",
+                "ensures r.txt() == expr_text(**lhs) + seq![' '] + go_binop_text(*op) + seq![' '] + expr_text(**rhs),", "a binary operation is printed LEFT operand, operator, RIGHT operand"),
+        arm_doc("index_doc", r"Expr::Index \{\s*array,\s*index,\s*ty: _,\s*\} => ", "Expr::Cast { expr, ty } =>", "array: &Box<Expr>, index: &Box<Expr>",
+                "ensures r.txt() == expr_text(**array) + seq!['['] + expr_text(**index) + seq![']'],", "an index expression is printed array[index]"),
     ],
 )
